@@ -51,6 +51,18 @@ if kind == 'c11':
             for q in (f"$[{t}]", f"$[::{t}]", f"$[{t}:]", f"$[:{t}]", f"$[{t}::-1]", f"$[:{t}:-1]", f"$[1::{t}]", f"$[?@[{t}]==0]"):
                 cases.append((q, arr if not q.startswith('$[?') else [arr]))
     for q, sc in [("$[1:2]", {"a": 1}), ("$[0]", {"0": 1}), ("$[::]", "abc"), ("$[0]", 5), ("$..[1::-1]", [[1, 2, 3], [4, [5, 6]]])]: cases.append((q, sc))
+    # slices as the first segment after `@` inside a filter, observed through count() and through a following segment
+    for ln in range(0, 6):
+        arr = list(range(ln))
+        for a in [None, 0, 1, -1, -2, 2]:
+            for b in [None, 0, 1, 2, 3, -1, 5]:
+                for c in [None, 1, 2, -1, -2]:
+                    sl = ('' if a is None else str(a)) + ':' + ('' if b is None else str(b)) + ('' if c is None else ':' + str(c))
+                    k = rnd.randrange(0, ln + 1)
+                    cases.append((f"$[?count(@[{sl}])=={k}]", [arr]))
+                    cases.append((f"$[?count(@[{sl}])>{max(k - 1, 0)}]", [arr, list(reversed(arr))]))
+                    cases.append((f"$[?@[{sl}].a]", [[{"b": 1}] * max(ln - 1, 0) + [{"a": 1}]] if ln else [[]]))
+                    cases.append((f"$[?@[{sl}][?@>{k}]]", [arr]))
     # the same slices over arrays whose elements are not distinct: a position must never be recovered from a value
     def variants(arr):
         if not isinstance(arr, list) or not arr or not all(isinstance(x, int) for x in arr): return []
@@ -96,14 +108,31 @@ elif kind == 'c04':
             cases.append((f"$.i[?@{op}$.w]", {"w": o, "i": [o, o1, o2, o3, {}]}))
             cases.append((f"$.i[?@{op}$.w]", {"w": a, "i": [a, a1, a2, a[:-1], []]}))
             cases.append((f"$.i[?@.x{op}@.y]", {"i": [{"x": o, "y": o1}, {"x": o, "y": o2}, {"x": [o], "y": [o1]}, {"x": a, "y": a1}, {"x": a, "y": a2}]}))
+    # objects whose member names are enclosed in quote characters (a lookup that "unquotes" the name finds the wrong member)
+    QO = [{"'k'": 1}, {"'k'": 1.0}, {"'k'": 2, "k": 2}, {"'k'": 5, "k": 2}, {'"k"': 1}, {'"k"': 1, "k": 3}, {"'": 1}, {'"': 1}, {"''": 1, "": 2}, {"k": 1}]
+    for x in QO:
+        for y in QO:
+            for op in OPS: cases.append((f"$[?@.x{op}@.y]", [{"x": x, "y": y}]))
+    # two DIFFERENT operands whose texts coincide once the punctuation between their segments is dropped
+    COLL = [("@.a.b", "@.ab"), ("@[1][2]", "@[12]"), ("$.k[1]", "$.k1"), ("@['a']['b']", "@['ab']"), ("@.a[0]", "@.a0"), ("@.a.b", "@['a.b']"), ("@[0].a", "@['0a']"), ("length(@.a.b)", "length(@.ab)"), ("count(@.a.b)", "count(@.ab)")]
+    CDOC = [{"a": {"b": 1, "0": 9}, "ab": 2, "a0": 3, "a.b": 4, "0a": 5, "k1": 6}, [0, [7, 8, 9]] + [0] * 10 + [5], {"a": [3], "ab": 3, "a0": 4}, {"a": {"b": [1, 2]}, "ab": [1]}]
+    for l, r in COLL:
+        for op in OPS:
+            cases.append((f"$[?{l}{op}{r}]", [CDOC[0], CDOC[2], CDOC[3], CDOC[1]]))
+            cases.append((f"$[?{r}{op}{l}]", [CDOC[0], CDOC[2], CDOC[3], CDOC[1]]))
+            cases.append((f"$.x[?{l}{op}{r}]", {"k": [1, 2], "k1": 2, "x": [CDOC[0], CDOC[1]]}))
     if N and N < len(cases): cases = rnd.sample(cases, N)
     for q, d in cases: emit(q, d)
 elif kind == 'c05':
-    ATOMS = ['@.a', '@.b', '@[0]', '@.*', '$.k', '$.a', '$.k[?@.a]', '@.a==$.a', '$.items', '$.k[0]==1', 'count($.k[*])>0', '@.a==1', '@.b!=2', '@.a<@.b', '1==1', '1==2', '@[?@.a]', '@..a', 'length(@.a)==0', 'count(@.*)>1', "in(@.a,$.k)",
+    ATOMS = ['match(@.a,@.b)', 'search(@.a,@.b)', "match(@.a,'a.*')", 'match(@.b,@.a)', "search(@.b,'b')",
+             '@.a[?@.a]', '@.a[?@.b]', '@.a[?@>1]', '@.a[?@<2]', '@.*[?@.a]', '@.*[?@.b]', '@.a[?@.a==1]', '@.a[?@.b==2]', '@.a[?@>=2]', '@..a[?@.b]', '@..a[?@.a]',
+             '@.a', '@.b', '@[0]', '@.*', '$.k', '$.a', '$.k[?@.a]', '@.a==$.a', '$.items', '$.k[0]==1', 'count($.k[*])>0', '@.a==1', '@.b!=2', '@.a<@.b', '1==1', '1==2', '@[?@.a]', '@..a', 'length(@.a)==0', 'count(@.*)>1', "in(@.a,$.k)",
              '@[?@.a].b', '@[?@.a][0]', '@[?@.a]..b', '@[?@.b].a[?@>1]', '@.*[?@.a].b', '@[?@.a,?@.b].b', '@[1:][?@.a].b', '@..[?@.a].b', '@[?@[?@.a].b]', 'count(@[?@.a])==2', 'value(@[?@.b].a)==1',
              # a `!` that belongs to a filter nested inside the tested query, not to the test itself
              '@[?!@.a]', '@.a[?!@.b]', '@[?!@.a].b', '@[?!(@.a)]', '@[?!@.a&&@.b]', '@[?@.a||!@.b]', 'count(@[?!@.a])==1', '@.*[?!@.b]', '@..[?!@.a]', '@[?@[?!@.a]]', '$.k[?!@.a]', '@[?@.a!=1]']
-    DOCS = [[{"a": 1}, {"a": 2, "b": 7}], [{"b": 1, "a": [0, 2]}, {"a": 1}, {"a": {"b": 3}, "b": 0}], {"x": {"a": 1}, "y": {"a": 2, "b": [5]}}, [[{"a": 1}], [{"a": 1, "b": 2}]], {"a": 1}, {"a": ""}, {"a": []}, {"a": {}}, {"a": None}, {"a": False}, {"a": 0}, {"b": 2}, {"a": 1, "b": 2}, {"a": 2, "b": 1}, [], [0], [[{"a": 1}]], [{"a": {"a": 1}}], {}, 5, "s", None]
+    DOCS = [[{"a": 1}, {"a": 2, "b": 7}], [{"b": 1, "a": [0, 2]}, {"a": 1}, {"a": {"b": 3}, "b": 0}], {"x": {"a": 1}, "y": {"a": 2, "b": [5]}}, [[{"a": 1}], [{"a": 1, "b": 2}]], {"a": 1}, {"a": ""}, {"a": []}, {"a": {}}, {"a": None}, {"a": False}, {"a": 0}, {"b": 2}, {"a": 1, "b": 2}, {"a": 2, "b": 1}, [], [0], [[{"a": 1}]], [{"a": {"a": 1}}], {}, 5, "s", None,
+            {"a": "abc", "b": "a.*"}, {"a": "abc", "b": "x"}, {"a": "abc"}, {"a": "abc", "b": 1}, {"a": "abc", "b": None}, {"a": 1, "b": "b"},
+            {"a": [{"a": 1}, {"b": 2}]}, {"a": [{"a": 1, "b": 2}]}, {"a": [0, 2]}, {"a": [{"b": 2}], "x": [{"a": 1}]}, {"a": [3, 1]}, {"a": {"p": {"a": 1}, "q": {"b": 2}}}]
     def formula(d):
         r = rnd.random()
         if d >= 3 or r < 0.3: return rnd.choice(['', '', '!']) + rnd.choice(ATOMS) if rnd.random() < 0.8 else rnd.choice(ATOMS)
@@ -125,9 +154,10 @@ elif kind == 'c05':
 elif kind == 'c14':
     VALS = [1, 1.0, 'a', 'b', None, True, False, 0, [1], [1.0], {"k": 1}, [], {}, '1', 'null', 'true', '[1]', '1.0', '{}', '', 'a,b',
             # integers beyond i64 / beyond the exact range of f64, and a digit string next to the digit
+            'k', 'null', ['k'], ['a', 'b'],
             18446744073709551615, 18446744073709551614, 9223372036854775807, 9223372036854775808, 9007199254740993, 9007199254740992, -9223372036854775808, 7, '7', [7], [18446744073709551615]]
     BIG = [str(i) for i in range(70)]
-    ARRS = [[18446744073709551614], [9223372036854775808, 9007199254740992], BIG, list(range(70)), BIG + [None], ['null', 'true', 'false'] + BIG, [[i] for i in range(70)], ['[%d]' % i for i in range(70)], list(range(100, 170)) + ['7'],
+    ARRS = [{"k": 1}, {"a": 1, "b": [1]}, {"1": 1, "null": 2}, [18446744073709551614], [9223372036854775808, 9007199254740992], BIG, list(range(70)), BIG + [None], ['null', 'true', 'false'] + BIG, [[i] for i in range(70)], ['[%d]' % i for i in range(70)], list(range(100, 170)) + ['7'],
             [], [1], [1, 'a'], ['a', 'b'], [[1]], [None], [1.0], [{"k": 1}], [[], {}], 5, 'x', None, {}, [1, 1], ['a', 'a', 'b', 'a'], [1, 1, 1, 1], [[1], [1]], [None, None], ['b', 'a', 'b'], ['1'], ['null', 'true'], [None, True, 1], ['[1]', '{}'], [0.0, 0], ['1', 1]]
     for _ in range(N):
         fn = rnd.choice(['in', 'nin', 'any_of', 'none_of', 'subset_of'])
